@@ -106,6 +106,26 @@ void vol_path(const std::vector<uint8_t>& in, const reflzh::DecodeResult& ref) {
 	std::vector<uint8_t> got; read_file(op, got);
 	if (in.empty() && got.empty()) return;
 	V_CHECK(got == ref.out, "file extracted from the LZH member (" << got.size() << " bytes) differs from the reference output (" << ref.out.size() << " bytes)");
+	// several LZH members extracted through ONE archive object, larger packed size before smaller and again: every file is its own decode
+	if (in.size() >= 2 && in.size() <= 20000) {
+		std::vector<uint8_t> half(in.begin(), in.begin() + in.size() / 2), tiny(in.begin(), in.begin() + 1);
+		reflzh::DecodeResult rh = reflzh::decode(half), rt = reflzh::decode(tiny);
+		if (!rh.capacity && !rt.capacity) {
+			std::vector<refvol::Member> ms;
+			const std::vector<uint8_t>* packed[3] = {&in, &half, &tiny}; const reflzh::DecodeResult* refs[3] = {&ref, &rh, &rt}; const char* names[3] = {"a_big.bin", "b_half.bin", "c_tiny.bin"};
+			for (int i = 0; i < 3; ++i) { refvol::Member mm; mm.name = names[i]; mm.payload = *packed[i]; mm.comp = refvol::CompLZH; mm.sizeField = uint32_t(refs[i]->out.size()); ms.push_back(mm); }
+			write_file(vp, refvol::encode(ms));
+			VolFile v3(vp);
+			for (int idx : {0, 1, 2, 1, 0, 2}) {
+				remove(op.c_str());
+				Out o3 = guarded([&] { v3.ExtractFile(size_t(idx), op); }, &what);
+				V_CHECK(o3 == Out::Ok, "extraction of LZH member " << idx << " of a three-member volume threw: " << what);
+				std::vector<uint8_t> g3; read_file(op, g3);
+				if (packed[idx]->empty() && g3.empty()) continue;
+				V_CHECK(g3 == refs[idx]->out, "LZH member " << idx << " (" << packed[idx]->size() << " packed bytes) extracted after other members through the same archive object gives " << g3.size() << " bytes, its own decode has " << refs[idx]->out.size());
+			}
+		}
+	}
 }
 
 Drain gen_drain(Tape& t) {
